@@ -156,6 +156,8 @@ def plan_c13(tier, seed):
     q = plan_pairs(tier, seed)
     p["runs"] += q["runs"] + [{"engine": "selfpairs", "ptype": t, "universe": "U2", "embed": e, "threads": 2} for t in (REP7 if tier == "quick" else ALL) for e in ("hi", "lo")]
     p["jobs"] = 6
+    # every reference of a traversal held at once and written again before each further library call (native build of /verif/alias)
+    p["py_engines"] = list(p.get("py_engines", [])) + [run_alias_native]
     return p
 
 
@@ -238,6 +240,16 @@ def run_sched(tier, seed, wdir):
     return merged
 
 
+def run_alias_native(tier, seed, wdir):
+    import alias
+    return alias.run_native(tier, seed, wdir)
+
+
+def run_alias_miri(tier, seed, wdir):
+    import alias
+    return alias.run_miri(tier, seed, wdir)
+
+
 def run_programs(tier, seed, wdir):
     import programs
     return programs.run(tier, seed, wdir)
@@ -248,8 +260,9 @@ def plan_c14(tier, seed):
     runs = grid(["map"], types, ["U2"], ["hi", "lo"], "full", ["split_hold"])
     runs += [{"engine": "selfpairs", "ptype": t, "universe": "U2", "embed": e, "threads": 2} for t in types for e in ("hi", "lo")]
     runs += [pr("u8", "U2", "hi", "whole", "structural", "structural", threads=8), pr("u8", "U2", "hi", "all", "canonical", "canonical", threads=4)]
-    return {"runs": runs, "py_engines": [run_programs, run_sched], "jobs": 8,
-            "rule": "three clauses: (1) addresses of all simultaneously live mutable references, exhaustively over states / pairs of states; (2) shuttle DFS over every interleaving of workers that mutate "
+    return {"runs": runs, "py_engines": [run_programs, run_sched, run_alias_miri], "jobs": 8,
+            "rule": "four clauses: (0) every small map x view root x mutable traversal (and pair of maps x *_mut set operation) executed by the Miri interpreter while all references obtained so far are "
+                    "held and written again before every further library call; the interpreter's aliasing model (Stacked Borrows; Tree Borrows too in the thorough tier) is the oracle; (1) addresses of all simultaneously live mutable references, exhaustively over states / pairs of states; (2) shuttle DFS over every interleaving of workers that mutate "
                     "pairwise disjoint views (scheduling point at every arena node write, footprints logged at every access); (3) a bounded grammar of client programs with rustc as oracle. "
                     "distinct = shapes + harnesses + programs rejected as required"}
 
